@@ -96,48 +96,51 @@ Theorem c14_new_no_u16_overflow : forall c, cfg_in_range c = true ->
      0 <= mtu - ip /\ 0 <= mtu - ip - UTP_HEADER /\ 1 <= mtu - ip - UTP_HEADER - UDP_HEADER).
 Proof. exact new_no_u16_overflow. Qed.
 
+(* no op list from `new` panics: no bound on the sizes reported delivered or failed *)
 Theorem c14_no_panic : forall c ops,
-  cfg_in_range c = true -> forallb small_op ops = true -> ss_run (ss_new c) ops <> None.
+  cfg_in_range c = true -> forallb op_in_domain ops = true -> ss_run (ss_new c) ops <> None.
 Proof. exact no_panic. Qed.
 
+Theorem c14_trace_no_panic : forall c ops,
+  cfg_in_range c = true -> forallb op_in_domain ops = true ->
+  ~ In None (ss_trace (ss_new c) ops).
+Proof. exact trace_no_panic. Qed.
+
+(* next_probe overflows u16 only in the state min_ss = max_ss = 65535 ... *)
 Theorem c14_next_probe_overflow_iff : forall s,
   wf s -> (next_probe s = None <-> min_ss s = U16_MAX).
 Proof. exact next_probe_none_iff. Qed.
 
-Theorem c14_overflow_at_u16_max_refuted : exists c ops,
-  cfg_in_range c = true /\ forallb op_in_domain ops = true /\
-  ss_run (ss_new c) ops = None /\
-  (exists s, ss_run (ss_new c) (removelast ops) = Some s /\ next_probe_wrapping s = 0).
-Proof. exact overflow_at_u16_max_refuted. Qed.
+(* ... which no op list reaches *)
+Theorem c14_overflow_unreachable : forall c ops s',
+  cfg_in_range c = true -> forallb op_in_domain ops = true ->
+  ss_run (ss_new c) ops = Some s' ->
+  max_ss s' < U16_MAX /\ next_probe s' = Some (probe_value s') /\
+  is_probing s' = Some (min_ss s' <? max_ss s').
+Proof. exact overflow_unreachable. Qed.
 
-(* --- ceiling *)
+(* --- ceiling: whatever sizes are reported delivered or failed (any integer) *)
 Theorem c14_ceiling : forall c ops s',
-  cfg_in_range c = true -> forallb (ceil_op_ok (ceiling_of c)) ops = true ->
+  cfg_in_range c = true -> forallb not_new ops = true ->
   ss_run (ss_new c) ops = Some s' ->
   mss s' <= max_ss s' /\ max_ss s' <= ceiling_of c.
 Proof. exact ceiling_invariant. Qed.
 
 Theorem c14_trace_le_ceiling : forall c ops mn mx pr ret,
-  cfg_in_range c = true -> forallb (ceil_op_ok (ceiling_of c)) ops = true ->
+  cfg_in_range c = true -> forallb not_new ops = true ->
   In (Some (mn, mx, pr, ret)) (ss_trace (ss_new c) ops) ->
   mn <= mx /\ mx <= ceiling_of c /\ (forall r, ret = Some r -> r <= ceiling_of c).
 Proof. exact trace_le_ceiling. Qed.
+
+(* regression of D3: one payload of any size from the peer right after `new` *)
+Theorem c14_peer_payload_capped : forall c n,
+  cfg_in_range c = true -> c14_d3_ok c (mtu_d3 c n) = true.
+Proof. exact mtu_d3_ok. Qed.
 
 Theorem c14_ceiling_datagram : forall c,
   ip_header (cfg_ipv4 c) + UDP_HEADER + UTP_HEADER + 1 <= cfg_link_mtu c ->
   ceiling_of c + UTP_HEADER + UDP_HEADER + ip_header (cfg_ipv4 c) = cfg_link_mtu c.
 Proof. exact ceiling_datagram. Qed.
-
-Theorem c14_peer_payload_lifts_ceiling_refuted : exists c ops s',
-  cfg_in_range c = true /\ forallb op_in_domain ops = true /\
-  ss_run (ss_new c) ops = Some s' /\
-  ceiling_of c = 1452 /\ mss s' = 5000 /\ max_ss s' = 5000 /\ mss s' > ceiling_of c.
-Proof. exact peer_payload_lifts_ceiling_refuted. Qed.
-
-Theorem c14_peer_payload_lifts_ceiling_refuted_new : forall s0, exists s',
-  ss_run s0 [OpNew cfg_default; OpDelivered 5000] = Some s' /\
-  mss s' = 5000 /\ mss s' > ceiling_of cfg_default.
-Proof. exact peer_payload_lifts_ceiling_refuted_new. Qed.
 
 (* --- the boolean predicate evaluated on the implementation's traces *)
 Theorem c14_model_trace_ok : forall c ops,
@@ -162,12 +165,12 @@ Print Assumptions c14_min_le_max.
 Print Assumptions c14_no_u16_overflow.
 Print Assumptions c14_new_no_u16_overflow.
 Print Assumptions c14_no_panic.
+Print Assumptions c14_trace_no_panic.
 Print Assumptions c14_next_probe_overflow_iff.
-Print Assumptions c14_overflow_at_u16_max_refuted.
+Print Assumptions c14_overflow_unreachable.
 Print Assumptions c14_ceiling.
 Print Assumptions c14_trace_le_ceiling.
+Print Assumptions c14_peer_payload_capped.
 Print Assumptions c14_ceiling_datagram.
-Print Assumptions c14_peer_payload_lifts_ceiling_refuted.
-Print Assumptions c14_peer_payload_lifts_ceiling_refuted_new.
 Print Assumptions c14_model_trace_ok.
 Print Assumptions c14_cfg.
